@@ -254,6 +254,15 @@ Proof.
   split; [exact merge_failed_counter|exact carried_limit].
 Qed.
 
+(* the model always passes the model-independent monitor used on implementation outputs *)
+Lemma events_pass_monitor K ops :
+  mon_events K (map prio (offered ops)) (map prio (items (run_res K ops)))
+             (seen (run_res K ops)) (seen_total ops) = true.
+Proof.
+  unfold mon_events. rewrite (topk_rel_mon prio K _ _ (events_topk K ops)).
+  rewrite reservoir_seen_exact, Z.eqb_refl. reflexivity.
+Qed.
+
 (* ---- synthetics ---- *)
 Definition is_synth (e : ev) : bool := (synth_boost <=? prio e)%Z.
 
@@ -377,3 +386,14 @@ Proof. split; [vm_compute; reflexivity|]. repeat constructor; cbn; unfold ev_in_
 
 Example counts_example : Forall op_counts_ok [OAdd (mkEv 5 1); OMerge (mkRes 2 [mkEv 1 1] 7 0)].
 Proof. repeat constructor; cbn; unfold counts_ok; cbn; lia. Qed.
+
+(* the heap theorems' hypotheses are met by the daemon's Less and by a concrete non-empty heap *)
+Example heap_hyp_example :
+  (forall a b, ev_less a b = (prio a <? prio b)%Z) /\
+  heap_ordered prio [mkEv 1 1; mkEv 3 2; mkEv 2 3; mkEv 3 4] /\
+  init ev_less [mkEv 3 2; mkEv 3 4; mkEv 2 3; mkEv 1 1] = [mkEv 1 1; mkEv 3 2; mkEv 2 3; mkEv 3 4].
+Proof.
+  split; [exact ev_less_key|]. split; [|vm_compute; reflexivity].
+  intros p c Hc Hn _. cbn in Hn. unfold child in Hc.
+  assert (p = 0 /\ (c = 1 \/ c = 2) \/ p = 1 /\ c = 3) as [[-> [-> | ->]]|[-> ->]] by lia; vm_compute; discriminate.
+Qed.
